@@ -637,6 +637,32 @@ def run_property(prop, tier, jobs, assumptions, level_text, keep=False, only=Non
         for f in futs:
             f.result()
 
+    # C19: writable static-storage objects of the library that no query showed to be written. Either the writing code is
+    # unreachable, or it sits in functions the encoding replaces by models (the stringstream formatters of the TECMP status
+    # conversion) or behind bodyless external calls (snprintf into a static buffer). The solver cannot decide reachability
+    # there, so the object's mere existence sends the run to the multi-threaded native confirmation; only a reported race /
+    # digest difference / crash is a violation. On the pinned tree the set is empty (libstdc++'s __ioinit aside).
+    if prop == "C19" and not only:
+        writable = set()
+        for variant, (lib, _) in ctx.lib.items():
+            sp = ctx.statics_file(variant)
+            writable |= {l.split()[2] for l in open(sp) if l.startswith("G 1 ")}
+        writable -= {"_ZStL8__ioinit"}
+        flagged = any(r and r.get("counterexamples") for r in records)
+        if writable and not flagged:
+            nat = c19_native(ctx)
+            race = "ThreadSanitizer: data race" in nat["out"] or "digests differ" in nat["out"] or (nat.get("built") and nat["rc"] not in (0, -1, -2))
+            rdir = os.path.join(os.environ.get("VP_REPLAYS", os.path.join(VERIF, "replays")), prop)
+            os.makedirs(rdir, exist_ok=True)
+            where = "writable static object(s) not reached by any query: " + ", ".join(sorted(writable))[:600]
+            rpath = os.path.join(rdir, "c19-%s.json" % hashlib.sha1(where.encode()).hexdigest()[:10])
+            json.dump({"property": prop, "kind": "c19-tsan", "description": "C19: library defines writable static storage outside the encoded code", "location": where,
+                       "native_confirmed": bool(race), "native_output": nat["out"][-4000:]}, open(rpath, "w"), indent=1)
+            if race:
+                violations.append({"replay": rpath, "summary": where + "; ThreadSanitizer / digest comparison of 4 concurrent instances confirms interference"})
+            else:
+                ctx.log("C19-NOTE", where, "- no race / digest difference natively: not a violation")
+
     # ------------------------------------------------------------ report
     wall = time.time() - ctx.t0
     printed = set()
